@@ -32,8 +32,42 @@ def register(gt):
                     enc = v.args[0].value if v.args else "utf-8"
                     found.append((node.lineno, v.func.value.value.encode(enc)))
             return [t for _, t in sorted(found)]
+        def tags_probed(run):
+            """behavioural fallback (used only when the syntactic reader finds no `tag = "...".encode()` assignment, e.g.
+            after the tagged hash was extracted into a helper): the inputs handed to sha256 during one call that look
+            like a tag (short, printable ASCII), in order of first use"""
+            import hashlib
+            real = hashlib.sha256
+            seen = []
+
+            def spy(data=b"", *a, **k):
+                d = bytes(data)
+                if 0 < len(d) <= 40 and all(32 <= ch < 127 for ch in d) and d not in seen:
+                    seen.append(d)
+                return real(data, *a, **k)
+            patched = [(hashlib, "sha256")] + [(m, k) for k, v in vars(m).items() if v is real]
+            try:
+                for obj, k in patched:
+                    setattr(obj, k, spy)
+                run()
+            finally:
+                for obj, k in patched:
+                    setattr(obj, k, real)
+            return seen
         st, vt = tags(m.sign), tags(m.verify)
+        mode = "syntactic"
+        if not (st and vt):
+            key, msg, aux = (3).to_bytes(32, "big"), b"translator probe", bytes(32)
+            sig_ = []
+            st = tags_probed(lambda: sig_.append(m.sign(key, msg, aux)))
+            pk = m.pubkey(m.point_scalar_mul(3, (m.SECP256K1_Gx, m.SECP256K1_Gy))) if hasattr(m, "point_scalar_mul") else None
+            if pk is None:
+                import bits.ecmath as ec
+                pk = m.pubkey(ec.point_scalar_mul(3, (m.SECP256K1_Gx, m.SECP256K1_Gy)))
+            vt = tags_probed(lambda: m.verify(pk, msg, sig_[0]))
+            mode = "behavioural probe (sha256 inputs observed during one sign / one verify)"
         assert st and vt, "no tag assignments found"
+        out += "(* translator_mode: tags %s *)\n" % mode
         out += "Definition sign_tags : list bytes := %s.\n" % gt.coq_list(gt.coq_bytes(t) for t in st)
         out += "Definition verify_tags : list bytes := %s.\n" % gt.coq_list(gt.coq_bytes(t) for t in vt)
         # lift_x: c = add_mod_p(pow_mod_p(<x>, 3), 7); y = pow_mod_p(c, (SECP256K1_P + 1) // 4)
